@@ -209,6 +209,12 @@ func (r *Report) Finish(outDir string, findings []Finding) int {
 	for _, id := range ids {
 		ruleTable = append(ruleTable, map[string]interface{}{"rule": id, "doc": r.RuleDocs[id], "instances": count[id], "floor": r.Floors[id]})
 	}
+	if r.Trusted == nil {
+		r.Trusted = []string{}
+	}
+	if r.Notes == nil {
+		r.Notes = []string{}
+	}
 	cov := map[string]interface{}{
 		"explanation":   r.Explain,
 		"obligations":   len(r.Obs),
